@@ -12,6 +12,9 @@ static int64_t nv_nondet_int64_t(void) { int64_t x; return x; }
 static uint64_t nv_nondet_uint64_t(void) { uint64_t x; return x; }
 static int32_t nv_nondet_int32_t(void) { int32_t x; return x; }
 static uint32_t nv_nondet_uint32_t(void) { uint32_t x; return x; }
+/* erased numerics (vectors, matrices, Eigen expressions): a unit type; every operation on it is dropped */
+struct nv_opaque { char nv_unit; };
+static struct nv_opaque nv_opaque_value(void) { struct nv_opaque x; return x; }
 #define NV_FINITE(x) ((x) == (x) && (x) - (x) == 0.0)
 /* same double value (NaN equals NaN): used where a contract says "the stored value is the observed one" */
 #define NV_SAME(a, b) ((a) == (b) || ((a) != (a) && (b) != (b)))
